@@ -8,7 +8,7 @@ import z3
 
 from pyvc.values import *   # noqa
 from pyvc.engine import LoopSpec, EXC, GenObj
-from pyvc.harness import harness, both_backends, new_obj, OpaqueLog
+from pyvc.harness import thorough, harness, both_backends, new_obj, OpaqueLog
 from pyvc import models as M
 from contracts import spec_wire as W
 
@@ -177,15 +177,14 @@ def _fragmenter(hdr, lh, md_kind, d_kind):
     return run
 
 
-def _fragmenter_unrolled(hdr, lh):
+def _fragmenter_unrolled(hdr, lh, fs=64, total=150):
     """BOUNDED stand-in that does not depend on the shape of the fragmenter's loops: fragment size 64, metadata and data of
     symbolic content and symbolic lengths up to three fragments in total; every loop is unrolled.  Same clauses as the
     unbounded harness (they are stated on the yielded fragments, not on the loops)."""
     def run(E):
-        fs = 64
-        data = E.input('data', E.fresh_bytes('data', 0, 130))
-        md = E.input('metadata', E.fresh_bytes('metadata', 0, 130))
-        E.assume(data.len_term() + md.len_term() <= 150)
+        data = E.input('data', E.fresh_bytes('data', 0, total))
+        md = E.input('metadata', E.fresh_bytes('metadata', 0, total))
+        E.assume(data.len_term() + md.len_term() <= total)
         E.input('fragment_size', fs)
         g = Ghost(E)
         E.unroll_limit = 12
@@ -209,6 +208,11 @@ for _hdr in (6, 10):
                 max_paths=4000,
                 assumptions=['BOUNDED stand-in: fragment size 64, metadata + data <= 150 bytes (up to three fragments), symbolic contents and '
                              'lengths, loops unrolled'])(_fragmenter_unrolled(_hdr, _lh))
+        if thorough():
+            harness('c03.fragmenter.unrolled.bounded[hdr=%d,length_header=%s,size=70,total<=280]' % (_hdr, _lh), ['C03', 'C01'], kind='bounded',
+                    functions=[ITER, FF + '.__init__'], replay='c03_fragmenter', max_paths=40000, timeout_s=600,
+                    assumptions=['BOUNDED stand-in (thorough tier): fragment size 70, metadata + data <= 280 bytes (up to five fragments)'])(
+                _fragmenter_unrolled(_hdr, _lh, 70, 280))
 
 
 for _hdr in (6, 10):
